@@ -271,6 +271,9 @@ def d3(cx: Cx, ob: Ob) -> None:
         for t in s.syn.get(ev.line, ()):
             for c in subterms(t):
                 if op(c) == "call" and c[1] in (func, ("lv", "func")):
+                    # a probe of the HEADER cell (to word a warning) is not a conversion of the column
+                    if any(op(x) == "lv" and "header" in x[1] for x in subterms(c[2][0])) if c[2] else False:
+                        continue
                     calls.append((i, ev, ctx))
     if not calls:
         ob.undecide("_file_helper never calls the conversion callable")
